@@ -305,3 +305,156 @@ let () =
                | Some (toks, _) -> hint_stream dec h toks)
        with Crash -> crash_tag)
                                     | _ -> "BADCASE")
+
+(* ------------------------------------------------------------------ [w_c02, wave 5] enums with data-carrying variants
+   de.model.enum <path> <enc> <shape> <hex> <aux>   shape = struct(<hexname>*:denum(<hex>:u,<hex>:n:<shape>,<hex>:t:tup(..),<hex>:s:struct(..)))
+       the extracted TextDeEnum.enum_root_tape (aux = canonical tape) / enum_root_stream (aux = reader tokens)
+   spec.text.enum <enc> <shape> <tdoc>               TextDeEnum.spec_enum_fields on the TextDoc document
+   output: (struct (<hexname> (seq (variant <hex> <payload>) ..))) | ERR:<class> (ERR:unfit: the specification does not fit) *)
+let parse_enum_root (s : string) : (BinNums.coq_N list * TextDeEnum.variants) =
+  (* struct(<hex>*:denum( ... )) : split by hand, the payload shapes go through parse_shape *)
+  let n = S.length s in
+  let pre = "struct(" in
+  if not (starts_with pre s) || s.[n - 1] <> ')' then failwith "enum root shape";
+  let body = S.sub s 7 (n - 8) in
+  let star = S.index body '*' in
+  let name = bytes_of_hex (S.sub body 0 star) in
+  let rest = S.sub body (star + 1) (S.length body - star - 1) in
+  if not (starts_with ":denum(" rest) || rest.[S.length rest - 1] <> ')' then failwith "enum root shape (denum)";
+  let inner = S.sub rest 7 (S.length rest - 8) in
+  (* split at top-level commas *)
+  let parts = ref [] and depth = ref 0 and st = ref 0 in
+  S.iteri (fun i c ->
+      if c = '(' then incr depth
+      else if c = ')' then decr depth
+      else if c = ',' && !depth = 0 then (parts := S.sub inner !st (i - !st) :: !parts; st := i + 1)) inner;
+  if S.length inner > !st then parts := S.sub inner !st (S.length inner - !st) :: !parts;
+  let variant (p : string) =
+    let c1 = S.index p ':' in
+    let nm = bytes_of_hex (S.sub p 0 c1) in
+    let k = p.[c1 + 1] in
+    let arg () = S.sub p (c1 + 3) (S.length p - c1 - 3) in
+    let v = match k with
+      | 'u' -> TextDeEnum.VSUnit
+      | 'n' -> TextDeEnum.VSNewtype (parse_shape (arg ()))
+      | 't' -> (match parse_shape (arg ()) with SerdeShape.ShTup ss -> TextDeEnum.VSTuple ss | _ -> failwith "tuple variant")
+      | 's' -> (match parse_shape (arg ()) with SerdeShape.ShStruct (_, fs) -> TextDeEnum.VSStruct fs | _ -> failwith "struct variant")
+      | _ -> failwith "variant kind" in
+    (nm, v) in
+  (name, L.rev_map variant !parts)
+
+let show_enum_result (name : BinNums.coq_N list) (o : (BinNums.coq_N list * SerdeShape.dval) list Bytes.outcome) : string =
+  match o with
+  | Bytes.Ok l ->
+    let b = Stdlib.Buffer.create 256 in
+    let add = Stdlib.Buffer.add_string b in
+    add "(struct ("; add (hex_of_bytes name); add " (seq";
+    L.iter (fun (n, p) -> add " (variant "; add (hex_of_bytes n); add " "; show_value b p; add ")") l;
+    add ")))";
+    Stdlib.Buffer.contents b
+  | Bytes.Err e when int_of_n e = 900 -> "ERR:unfit"
+  | Bytes.Err e -> "ERR:" ^ class_name e
+  | _ -> crash_tag
+
+let () =
+  register "de.model.enum" (function [path; enc; shape; _; aux] ->
+      let (name, vs) = parse_enum_root shape in
+      let dec = decode_of enc in
+      (try
+         if starts_with "reader:" path || starts_with "freader:" path then
+           (match rtoks_of_string aux with
+            | None -> "BADAUX"
+            | Some r -> show_enum_result name (TextDeEnum.enum_root_stream dec parse_f64 fops name vs r))
+         else show_enum_result name (TextDeEnum.enum_root_tape dec parse_f64 fops name vs (Ttglue.tape_of_string aux))
+       with Crash -> crash_tag)
+                                    | _ -> "BADCASE");
+  register "spec.text.enum" (function [enc; shape; d] ->
+      let (name, vs) = parse_enum_root shape in
+      let doc = Fam_spec.parse_doc d in
+      (try show_enum_result name (TextDeEnum.spec_enum_fields (decode_of enc) parse_f64 fops name vs doc)
+       with Crash -> crash_tag)
+                                     | _ -> "BADCASE")
+
+(* ------------------------------------------------------------------ [w_c02, wave 5] typed map keys, size hints
+   de.model.kmap <path> <enc> kmap(<key shape>,<value shape>) <hex> <aux>
+       the extracted TextDeKeys.kmap_root_tape (aux = canonical tape) / kmap_root_stream (aux = reader tokens)
+   de.model.hints <path> <enc> <shape> <hex> <aux>     tape paths only; shape = struct(76:hseq(S)) | struct(76:hmap(S)) | hmap(S)
+       the size hints TextDeKeys.seq_hints / map_hints of the access the field `v` (resp. the root) is visited with, and
+       the value TextDeTape.de gives for seq(S) / map(S); printed like fam_de.rs Value::Hint *)
+let split_kmap (s : string) : string * string =
+  let n = S.length s in
+  if not (starts_with "kmap(" s) || s.[n - 1] <> ')' then failwith "kmap shape";
+  let inner = S.sub s 5 (n - 6) in
+  let depth = ref 0 and cut = ref (-1) in
+  S.iteri (fun i c ->
+      if c = '(' then incr depth else if c = ')' then decr depth
+      else if c = ',' && !depth = 0 && !cut < 0 then cut := i) inner;
+  (S.sub inner 0 !cut, S.sub inner (!cut + 1) (S.length inner - !cut - 1))
+
+let show_amap (o : (SerdeShape.dval * SerdeShape.dval) list Bytes.outcome) : string =
+  match o with
+  | Bytes.Ok l -> let b = Stdlib.Buffer.create 256 in show_value b (SerdeShape.DAMap l); Stdlib.Buffer.contents b
+  | Bytes.Err e -> "ERR:" ^ class_name e
+  | _ -> crash_tag
+
+let hint_string (l : Datatypes.nat list) : string = S.concat "," (L.map (fun n -> string_of_int (int_of_nat n)) l)
+
+let () =
+  register "de.model.kmap" (function [path; enc; shape; _; aux] ->
+      let (ks, vs) = split_kmap shape in
+      let ksh = parse_shape ks and vsh = parse_shape vs in
+      let dec = decode_of enc in
+      (try
+         if starts_with "reader:" path || starts_with "freader:" path then
+           (match rtoks_of_string aux with
+            | None -> "BADAUX"
+            | Some r -> show_amap (TextDeKeys.kmap_root_stream dec parse_f64 fops ksh vsh r))
+         else show_amap (TextDeKeys.kmap_root_tape dec parse_f64 fops ksh vsh (Ttglue.tape_of_string aux))
+       with Crash -> crash_tag)
+                                    | _ -> "BADCASE");
+  register "de.model.hints" (function [_path; enc; shape; _; aux] ->
+      let dec = decode_of enc in
+      let t = Ttglue.tape_of_string aux in
+      let len = nat_of_int (L.length t) in
+      let fuel = nat_of_int (2 * L.length t + 64) in
+      let with_hints (h : Datatypes.nat list Bytes.outcome) (v : SerdeShape.dval Bytes.outcome) (wrap : string -> string) =
+        (match v, h with
+         | Bytes.Ok x, Bytes.Ok hs ->
+           let b = Stdlib.Buffer.create 256 in show_value b x;
+           wrap ("(hint " ^ hint_string hs ^ " " ^ Stdlib.Buffer.contents b ^ ")")
+         | Bytes.Ok _, _ -> crash_tag
+         | _, _ -> show_result v) in
+      (try
+         if starts_with "hmap(" shape then begin
+           let s = parse_shape (S.sub shape 5 (S.length shape - 6)) in
+           with_hints (TextDeKeys.map_hints t fuel (nat_of_int 0) len)
+             (TextDeTape.deser_tape dec parse_f64 fops (SerdeShape.ShMap s) t) (fun x -> x)
+         end else begin
+           let pre_s = "struct(76:hseq(" and pre_m = "struct(76:hmap(" in
+           let is_seq = starts_with pre_s shape in
+           if not (is_seq || starts_with pre_m shape) then failwith "hints shape";
+           let s = parse_shape (S.sub shape 15 (S.length shape - 17)) in
+           let rec find ti n =
+             if n = 0 then None else
+               match TextDeTape.fields_next t ti len with
+               | Bytes.Ok (Some (((key, op), vi), ti')) -> if key = key_v then Some (op, vi) else find ti' (n - 1)
+               | _ -> None in
+           match find (nat_of_int 0) (L.length t + 1) with
+           | None -> "NOFIELD"
+           | Some (op, vi) ->
+             let o = match op with Some o -> o | None -> TextTok.Equal in
+             let k = TextDeTape.KOpVal (o, vi) in
+             let wrap x = "(struct (76 " ^ x ^ "))" in
+             if is_seq then
+               (match TextDeTape.tape_visit dec parse_f64 t TextDeCommon.THSeq k with
+                | Bytes.Ok (TextDeTape.TVSeq (st, en)) ->
+                  with_hints (TextDeKeys.seq_hints t fuel st en) (TextDeTape.de dec parse_f64 fops t fuel (SerdeShape.ShSeq s) k) wrap
+                | _ -> show_result (TextDeTape.de dec parse_f64 fops t fuel (SerdeShape.ShSeq s) k))
+             else
+               (match TextDeTape.tape_visit dec parse_f64 t TextDeCommon.THMap k with
+                | Bytes.Ok (TextDeTape.TVMap (st, en)) ->
+                  with_hints (TextDeKeys.map_hints t fuel st en) (TextDeTape.de dec parse_f64 fops t fuel (SerdeShape.ShMap s) k) wrap
+                | _ -> show_result (TextDeTape.de dec parse_f64 fops t fuel (SerdeShape.ShMap s) k))
+         end
+       with Crash -> crash_tag)
+                                     | _ -> "BADCASE")
